@@ -712,6 +712,9 @@ func parsePolicyElementCustom(buf *bytes.Reader, size int, pol *LCPPolicyCustom)
 	if size < 16 {
 		return fmt.Errorf("custom policy element is too small to hold its UUID: data length %d", size-16)
 	}
+	if size-16 > buf.Len() {
+		return fmt.Errorf("custom policy element announces %d bytes of data, only %d bytes left", size-16, buf.Len())
+	}
 	pol.Data = make([]byte, size-16)
 	err = binary.Read(buf, binary.LittleEndian,
 		&pol.Data)
@@ -831,6 +834,9 @@ func parsePolicyList2(buf *bytes.Reader, list *LCPPolicyList2) error {
 		return err
 	}
 
+	if uint64(list.PolicyElementSize) > uint64(buf.Len()) {
+		return fmt.Errorf("policy list announces %d policy elements, only %d bytes left", list.PolicyElementSize, buf.Len())
+	}
 	list.PolicyElements = make([]LCPPolicyElement, list.PolicyElementSize)
 	for i := 0; i < int(list.PolicyElementSize); i++ {
 		if err := parsePolicyElement(buf, &list.PolicyElements[i]); err != nil {
